@@ -8,7 +8,7 @@ import subprocess
 import sys
 
 VERIF = os.path.dirname(os.path.dirname(os.path.abspath(__file__)))
-REPO = '/repo'
+REPO = os.environ.get('VERIF_REPO', '/repo')
 ALL = ['C%02d' % i for i in range(1, 21)]
 
 
